@@ -52,18 +52,30 @@ fn stringlen_ok_chars(m: &[char], v: &[char]) -> bool {
         || (m.len() == 2 * v.len() && &m[..v.len()] == v && &m[v.len()..] == v)
 }
 
-/// run `f` once per entropy source state: every fuzzer input of the family, then 48 PRNG seeds
+/// run `f` once per entropy source state: every fuzzer input of the family, then 48 PRNG seeds.
+/// "Mutators never panic" (C16): a panic inside `f` is caught and reported as a violation of its own.
 fn for_sources(mut f: impl FnMut(&mut GenerationSource, String)) {
+    use std::panic::{catch_unwind, AssertUnwindSafe};
+    let mut panics = 0usize;
     for e in entropies() {
         let mut u = Unstructured::new(&e);
         let mut s = GenerationSource::Arbitrary(&mut u);
-        f(&mut s, format!("bytes:{}", hex(&e)));
+        let label = format!("bytes:{}", hex(&e));
+        if catch_unwind(AssertUnwindSafe(|| f(&mut s, label.clone()))).is_err() {
+            panics += 1;
+            if panics <= 5 { println!("NATIVE-VIOLATION [C16] a mutator panicked value=? entropy={} rate=? got=panic", label); }
+        }
     }
     for seed in 0..48u64 {
         let mut rng = ChaCha8Rng::seed_from_u64(seed);
         let mut s = GenerationSource::Rand(&mut rng);
-        f(&mut s, format!("seed:{}", seed));
+        let label = format!("seed:{}", seed);
+        if catch_unwind(AssertUnwindSafe(|| f(&mut s, label.clone()))).is_err() {
+            panics += 1;
+            if panics <= 5 { println!("NATIVE-VIOLATION [C16] a mutator panicked value=? entropy={} rate=? got=panic", label); }
+        }
     }
+    assert!(panics == 0, "{} mutator calls panicked", panics);
 }
 
 #[test]
